@@ -71,3 +71,12 @@ package verifspec
 //@   abstract_rest
 //@   throws_when chan.$closed
 //@   throws_msg send on closed channel
+
+// x.(T) for a concrete type T ($assertType with returnTuple false): the single-value assertion panics when x is nil or
+// its dynamic type is not T.  One-directional; the interface-target branch (method-set search with caches) is abstracted.
+// 20 = $kindInterface.
+//@ js types.js $assertType
+//@ property C08
+//@   param value: iface, type: desc, returnTuple: bool
+//@   abstract_rest
+//@   throws_when !returnTuple && type.kind != 20 && (value.$nil || value.constructor != type)
